@@ -2316,10 +2316,12 @@ def fast_nonMarkov_SIR(G, trans_time_fxn=None,
     #now we define the initial setup.
     status = defaultdict(lambda: 'S') #node status defaults to 'S'
     rec_time = defaultdict(lambda: tmin-1) #node recovery time defaults to -1
+    number_initially_recovered = 0
     if initial_recovereds is not None:
         for node in initial_recovereds:
             status[node] = 'R'
-            rec_time[node] = tmin-1 #default value for these.  Ensures that the recovered nodes appear with a time
+            rec_time[node] = tmin #Ensures that the recovered nodes appear with a time
+            number_initially_recovered += 1
     pred_inf_time = defaultdict(lambda: float('Inf')) 
         #infection time defaults to \infty  --- this could be set to tmax, 
         #probably with a slight improvement to performance.
@@ -2336,7 +2338,8 @@ def fast_nonMarkov_SIR(G, trans_time_fxn=None,
         initial_infecteds=[initial_infecteds]
     #else it is assumed to be a list of nodes.
         
-    times, S, I, R= ([tmin], [G.order()], [0], [0])  
+    times, S, I, R= ([tmin], [G.order()-number_initially_recovered], [0], 
+                        [number_initially_recovered])  
     transmissions = []
     
     for u in initial_infecteds:
